@@ -166,6 +166,22 @@ def applyDOp (s : List Chunk) : DOp → List Chunk
 
 def drun (s : List Chunk) (ops : List DOp) : List Chunk := ops.foldl applyDOp s
 
+/-- one step of an observed history: a state-changing operation (`pop` also answers) or the query `get` -/
+inductive DQ where
+  | op (o : DOp)
+  | get (start length : Nat)
+
+/-- new state and the answer (`get`/`pop` result), if the step answers -/
+def dstepQ (s : List Chunk) : DQ → List Chunk × Option (Option (List UInt8))
+  | .op (.pop a l) => ((dpop s a l).2, some (dpop s a l).1)
+  | .op o => (applyDOp s o, none)
+  | .get a l => (s, some (dget a l s))
+
+/-- the answers of a whole history, in order -/
+def dtrace (s : List Chunk) : List DQ → List (Option (List UInt8))
+  | [] => []
+  | q :: rest => (dstepQ s q).2.toList ++ dtrace (dstepQ s q).1 rest
+
 /-- abstract view: the byte stored at offset `x`, if any (first chunk that covers `x`). -/
 def byteAt : List Chunk → Nat → Option UInt8
   | [], _ => none
